@@ -243,8 +243,11 @@ mutual
       let sep : Str := if st.listTight then [] else if st.suppress then [] else rstrip st.snd ++ ['\n']
       -- `if not tight: if suppress: suppress = False` — i.e. the flag survives only in a tight list
       let st1 := { st with suppress := st.suppress && st.listTight }
-      let r := renderBlocks cfg st1 bs
-      (sep ++ r.1, r.2)
+      -- an item with nothing in it is still an item: its marker is written
+      if bs.isEmpty then (sep ++ rstrip st.pfx ++ ['\n'], { st1 with pfx := st.snd })
+      else
+        let r := renderBlocks cfg st1 bs
+        (sep ++ r.1, r.2)
     | .quote bs =>
       let inner := { st with skipBlank := false, pfx := st.pfx ++ "> ".toList, snd := st.snd ++ "> ".toList }
       let r := renderBlocks cfg inner bs
